@@ -404,6 +404,34 @@ theorem minv_diffJoint {O log keys org start m} (hO : GoodOrders O) (hS : Scn lo
   · rw [seqOpQuiet_w, seqOpQuiet_w]; exact h.startC
   · rw [seqOpQuiet_parked, seqOpQuiet_parked]; exact h.parked
 
+/-- The first start without stored state: the remote state is written as it is taken. -/
+theorem minv_firstState {O log keys org start m} (hS : Scn log keys org)
+    (h : MInv O log keys org start m) : MInv O log keys org start (m.firstState O) := by
+  unfold Mgr.firstState
+  have hw : ∀ (k : Nat) (b : Box), wfOp (seqLog log k) (mkOf log) b (.seq storeOnlyShape b.state []) = true := by
+    intro k b
+    simp [wfOp, storeOnlyShape, diffShape, emptyShape, tooLongShape, cbOnlyShape]
+  have hcoh := coh_joint2 h.coh [.storeState m.pts.state m.qts.state] 0 1 hS.k0 hS.k1 (by decide)
+    (.seq storeOnlyShape m.pts.state []) (.seq storeOnlyShape m.qts.state [])
+    m.pts m.qts (getBox_zero m) (getBox_one m) (hw 0 m.pts) (hw 1 m.qts)
+    (by
+      intro k _
+      rw [projSeq_single_store]
+      by_cases h0 : k = 0
+      · subst h0; simp [sstep, storeOnlyShape, callEvs]
+      · by_cases h1 : k = 1
+        · subst h1; simp [sstep, storeOnlyShape, callEvs]
+        · simp [h0, h1])
+  refine ⟨hcoh, ?_, ?_, ?_, ?_, ?_, ?_, ?_, ?_⟩
+  · rw [seqOpQuiet_w, seqOpQuiet_w]; exact h.p0
+  · rw [seqOpQuiet_w, seqOpQuiet_w]; exact h.q0
+  · intro c hc; rw [seqOpQuiet_w, seqOpQuiet_w]; exact h.c0 c hc
+  · rw [seqOpQuiet_queues, seqOpQuiet_queues]; exact h.queues
+  · rw [seqOpQuiet_internal, seqOpQuiet_internal]; exact h.internal
+  · rw [seqOpQuiet_w, seqOpQuiet_w]; exact h.startP
+  · rw [seqOpQuiet_w, seqOpQuiet_w]; exact h.startC
+  · rw [seqOpQuiet_parked, seqOpQuiet_parked]; exact h.parked
+
 theorem emit_setSeqNow (m : Mgr) (evs : List Event) : (m.emit evs).setSeqNow = (m.setSeqNow).emit evs := rfl
 
 /-- One common difference answer of kind `diff`, applied: foreign other-updates are re-routed
